@@ -50,3 +50,13 @@ pub fn factory_finished(a: &Args) {
     let out = rt.block_on(fp::factory_finished(&q, a.u64("draining") == 1, a.usize("fq")));
     println!("out={}", out.replace('=', ":"));
 }
+
+/// factory_pool pool_size=<n> slots=<live|drain|-,...> busy=<slots> op=<..>
+pub fn factory_pool(a: &Args) {
+    use ractor::factory::factoryimpl::verif_probe as fp;
+    let rt = tokio::runtime::Builder::new_current_thread().enable_time().build().unwrap();
+    let slots: Vec<String> = a.str("slots").split(',').filter(|s| !s.is_empty()).map(|s| s.to_string()).collect();
+    let busy: Vec<usize> = a.list_u128("busy").iter().map(|x| *x as usize).collect();
+    let out = rt.block_on(fp::pool_step(a.usize("pool_size"), &slots, &busy, a.str("op")));
+    println!("out={}", out.replace('=', ":"));
+}
